@@ -12,6 +12,7 @@ import (
 	"math/big"
 	"net"
 	"strings"
+	"sync"
 	"time"
 
 	"github.com/hashicorp/go-hclog"
@@ -45,7 +46,12 @@ type World struct {
 	TLSCfg    *tls.Config // server config used by the StartTLS handler
 }
 
-func W() *World { return vrt.Current().Data.(*World) }
+func W() *World {
+	if vrt.Free() {
+		return vrt.FreeData().(*World)
+	}
+	return vrt.Current().Data.(*World)
+}
 
 type WriteRec struct {
 	Conn  int
@@ -74,10 +80,15 @@ type HSpec struct {
 	YieldsAfter int
 }
 
-type logCapture struct{ lines []string }
+type logCapture struct {
+	mu    sync.Mutex
+	lines []string
+}
 
 func (l *logCapture) Write(p []byte) (int, error) {
+	l.mu.Lock()
 	l.lines = append(l.lines, string(p))
+	l.mu.Unlock()
 	return len(p), nil
 }
 
@@ -113,7 +124,11 @@ const defaultAddr = "127.0.0.1:3890"
 func NewWorld() *World {
 	vnet.Reset()
 	w := &World{PerMsg: map[int64]*HSpec{}, Notes: map[string]int{}, LogBuf: &logCapture{}}
-	vrt.Current().Data = w
+	if vrt.Current() == nil {
+		vrt.StartFree(w)
+	} else {
+		vrt.Current().Data = w
+	}
 	return w
 }
 
@@ -156,13 +171,17 @@ func (w *World) handler(route string) gldap.HandlerFunc {
 	return func(rw *gldap.ResponseWriter, r *gldap.Request) {
 		id := msgIDOf(r)
 		conn := r.ConnectionID()
-		w.Dispatch = append(w.Dispatch, DispatchRec{Conn: conn, Req: r.ID, MsgID: id, Route: route})
-		w.Started++
-		w.InFlight++
+		vrt.Atomic(func() {
+			w.Dispatch = append(w.Dispatch, DispatchRec{Conn: conn, Req: r.ID, MsgID: id, Route: route})
+			w.Started++
+			w.InFlight++
+		})
 		vrt.Logf("h-enter conn=%d req=%d msg=%d", conn, r.ID, id)
 		defer func() {
-			w.InFlight--
-			w.Finished++
+			vrt.Atomic(func() {
+				w.InFlight--
+				w.Finished++
+			})
 			vrt.Logf("h-exit conn=%d req=%d", conn, r.ID)
 		}()
 		sp := w.spec(id)
@@ -176,14 +195,16 @@ func (w *World) handler(route string) gldap.HandlerFunc {
 			vrt.Yield()
 		}
 		if sp.Panic == "before" {
-			w.Notes["panicked"]++
+			vrt.Atomic(func() { w.Notes["panicked"]++ })
 			panic(fmt.Sprintf("harness: handler panic (msg %d)", id))
 		}
 		seq := 0
 		write := func(resp gldap.Response) {
 			frame := gldap.VPacketBytes(resp)
 			err := rw.Write(resp)
-			w.Writes = append(w.Writes, WriteRec{Conn: conn, Req: r.ID, MsgID: id, Frame: frame, OK: err == nil, Seq: seq})
+			vrt.Atomic(func() {
+				w.Writes = append(w.Writes, WriteRec{Conn: conn, Req: r.ID, MsgID: id, Frame: frame, OK: err == nil, Seq: seq})
+			})
 			seq++
 		}
 		for i, sz := range sp.Frames {
@@ -193,7 +214,7 @@ func (w *World) handler(route string) gldap.HandlerFunc {
 			write(finalFor(route, r))
 		}
 		if sp.Panic == "after" {
-			w.Notes["panicked"]++
+			vrt.Atomic(func() { w.Notes["panicked"]++ })
 			panic(fmt.Sprintf("harness: handler panic after write (msg %d)", id))
 		}
 		for i := 0; i < sp.YieldsAfter; i++ {
@@ -206,13 +227,17 @@ func (w *World) startTLSHandler() gldap.HandlerFunc {
 	return func(rw *gldap.ResponseWriter, r *gldap.Request) {
 		id := msgIDOf(r)
 		conn := r.ConnectionID()
-		w.Dispatch = append(w.Dispatch, DispatchRec{Conn: conn, Req: r.ID, MsgID: id, Route: "starttls"})
-		w.Started++
-		w.InFlight++
+		vrt.Atomic(func() {
+			w.Dispatch = append(w.Dispatch, DispatchRec{Conn: conn, Req: r.ID, MsgID: id, Route: "starttls"})
+			w.Started++
+			w.InFlight++
+		})
 		vrt.Logf("h-enter conn=%d req=%d msg=%d", conn, r.ID, id)
 		defer func() {
-			w.InFlight--
-			w.Finished++
+			vrt.Atomic(func() {
+				w.InFlight--
+				w.Finished++
+			})
 			vrt.Logf("h-exit conn=%d req=%d", conn, r.ID)
 		}()
 		sp := w.spec(id)
@@ -220,25 +245,27 @@ func (w *World) startTLSHandler() gldap.HandlerFunc {
 			vrt.Yield()
 		}
 		if sp.Panic == "before" {
-			w.Notes["panicked"]++
+			vrt.Atomic(func() { w.Notes["panicked"]++ })
 			panic("harness: StartTLS handler panic")
 		}
 		resp := r.NewExtendedResponse(gldap.WithResponseCode(gldap.ResultSuccess))
 		resp.SetResponseName(gldap.ExtendedOperationStartTLS)
 		frame := gldap.VPacketBytes(resp)
 		err := rw.Write(resp)
-		w.Writes = append(w.Writes, WriteRec{Conn: conn, Req: r.ID, MsgID: id, Frame: frame, OK: err == nil})
+		vrt.Atomic(func() {
+			w.Writes = append(w.Writes, WriteRec{Conn: conn, Req: r.ID, MsgID: id, Frame: frame, OK: err == nil})
+		})
 		for i := 0; i < sp.YieldsAfter; i++ {
 			vrt.Yield()
 		}
 		err = r.StartTLS(w.TLSCfg)
-		w.Notes["starttls-done"]++
+		vrt.Atomic(func() { w.Notes["starttls-done"]++ })
 		if err != nil {
-			w.Notes["starttls-handshake-error"]++
+			vrt.Atomic(func() { w.Notes["starttls-handshake-error"]++ })
 			vrt.Logf("starttls-error conn=%d", conn)
 			return
 		}
-		w.Notes["starttls-ok"]++
+		vrt.Atomic(func() { w.Notes["starttls-ok"]++ })
 		for i := 0; i < sp.YieldsAfter; i++ {
 			vrt.Yield()
 		}
@@ -271,7 +298,7 @@ func (w *World) StartServer(o SrvOpts) {
 			for i := 0; i < o.OnCloseYields; i++ {
 				vrt.Yield()
 			}
-			w.OnClose = append(w.OnClose, id)
+			vrt.Atomic(func() { w.OnClose = append(w.OnClose, id) })
 			vrt.Logf("onclose %d", id)
 		}))
 	}
@@ -320,12 +347,14 @@ func (w *World) StartServer(o SrvOpts) {
 	}
 	if !o.NoUnbindRoute && has(o.OnlyRoutes, "unbind") {
 		must(mux.Unbind(func(rw *gldap.ResponseWriter, r *gldap.Request) {
-			w.UnbindRan++
 			id := msgIDOf(r)
-			w.Dispatch = append(w.Dispatch, DispatchRec{Conn: r.ConnectionID(), Req: r.ID, MsgID: id, Route: "unbind"})
+			vrt.Atomic(func() {
+				w.UnbindRan++
+				w.Dispatch = append(w.Dispatch, DispatchRec{Conn: r.ConnectionID(), Req: r.ID, MsgID: id, Route: "unbind"})
+			})
 			vrt.Logf("h-unbind conn=%d req=%d", r.ConnectionID(), r.ID)
 			if w.spec(id).Panic == "before" {
-				w.Notes["panicked"]++
+				vrt.Atomic(func() { w.Notes["panicked"]++ })
 				panic("harness: unbind handler panic")
 			}
 		}))
@@ -334,7 +363,7 @@ func (w *World) StartServer(o SrvOpts) {
 	w.Srv = srv
 	w.Addr = o.Addr
 	if w.Addr == "" {
-		w.Addr = defaultAddr
+		w.Addr = vnet.DefaultAddr()
 	}
 	if o.NoRun {
 		return
@@ -350,8 +379,10 @@ func (w *World) GoRun(o SrvOpts) {
 			ro = append(ro, gldap.WithTLSConfig(o.TLS))
 		}
 		err := w.Srv.Run(w.Addr, ro...)
-		w.RunErr = err
-		w.RunDone = true
+		vrt.Atomic(func() {
+			w.RunErr = err
+			w.RunDone = true
+		})
 		vrt.Logf("run-returned err=%v", err != nil)
 	})
 }
@@ -360,8 +391,10 @@ func (w *World) GoRun(o SrvOpts) {
 func (w *World) Stop() {
 	vrt.Logf("stop-called")
 	err := w.Srv.Stop()
-	w.StopErr = append(w.StopErr, err)
-	w.StopDone++
+	vrt.Atomic(func() {
+		w.StopErr = append(w.StopErr, err)
+		w.StopDone++
+	})
 	vrt.Logf("stop-returned err=%v", err != nil)
 }
 
@@ -391,7 +424,7 @@ func (w *World) Dial(name string, recvBuf int) *Cl {
 	if c != nil {
 		cl.NC = c
 	}
-	w.Clients = append(w.Clients, cl)
+	vrt.Atomic(func() { w.Clients = append(w.Clients, cl) })
 	return cl
 }
 
@@ -402,7 +435,7 @@ func (w *World) DialNow(name string) *Cl {
 	if c != nil {
 		cl.NC = c
 	}
-	w.Clients = append(w.Clients, cl)
+	vrt.Atomic(func() { w.Clients = append(w.Clients, cl) })
 	return cl
 }
 
